@@ -213,3 +213,64 @@ def gen_c12_systematic(rng, idx):
         "cell": [kind, n, outs, TRANSPORT[ti] if ti >= 0 else None, att, comp],
     }
     return sc
+
+
+def gen_live_betdaq(rng):
+    """World B session trading through a Betdaq client (method-level API stub, polling diffs)."""
+    knobs = {"n_updates": (5, rng.choice([8, 12])), "p_removal": 0.0, "p_suspend": 0.0, "p_inplay": 0.0, "p_close": 0.0, "n_runners": (2, 3), "spacing": "normal"}
+    m = marketgen.gen_market(rng, 0, knobs)
+    prices = [1.5, 2.0, 2.5, 3.0, 3.5, 5.0, 10.0]
+    n_created = 0
+    for j, upd in enumerate(m["updates"]):
+        if rng.random() > 0.85:
+            continue
+        acts = []
+        n = rng.choice([1, 1, 2, 3, 12]) if rng.random() < 0.5 else 1
+        if n_created == 0 or rng.random() < 0.5:
+            subs = []
+            for _ in range(n):
+                a = {"op": "place", "betdaq": True, "sel": rng.choice(m["runners"]), "side": rng.choice(["BACK", "LAY"]), "price": rng.choice(prices), "size": r2(rng.uniform(1, 9))}
+                if rng.random() < 0.08:
+                    a["price"] = rng.choice([2.003, 1.005])
+                if rng.random() < 0.1:
+                    a["force"] = True
+                    a["price"] = rng.choice(prices)
+                subs.append(a)
+                n_created += 1
+            acts.append({"op": "txn", "acts": subs} if len(subs) > 1 else subs[0])
+        else:
+            kind = rng.choice(["cancel", "cancel", "update", "update", "replace"])
+            subs = []
+            for k in range(min(n, 3)):
+                a = {"op": kind, "order": rng.choice([{"live": k}, -1, -2, rng.randrange(max(1, n_created))])}
+                if kind == "update":
+                    a.update(betdaq=True, size_delta=rng.choice([0.0, 1.0, -0.5]), new_price=rng.choice(prices + [None]))
+                if kind == "replace":
+                    a["price"] = rng.choice(prices)
+                if kind == "cancel" and rng.random() < 0.15:
+                    a["red"] = 1.0
+                if rng.random() < 0.1:
+                    a["force"] = True
+                subs.append(a)
+            acts.append({"op": "txn", "acts": subs, "propagate": rng.random() < 0.2} if len(subs) > 1 else subs[0])
+        upd.setdefault("acts", {}).setdefault("B0", []).extend(acts)
+    faults = {}
+    for n in range(1, 20):
+        x = rng.random()
+        if x < 0.12:
+            faults[str(n)] = {"transport": rng.choice(["conn_before", "conn_after"])}
+        elif x < 0.3:
+            faults[str(n)] = {"reports": [rng.choice(["SUCCESS", "FAILURE:X"]) for _ in range(12)]}
+    return {
+        "world": "B",
+        "betdaq": True,
+        "cfg": {"max_workers": 32},
+        "clients": [{"limit": 5000}, {"exchange": "betdaq", "limit": rng.choice([5000, 5000, 3])}],
+        "markets": [m],
+        "strategies": [{"name": "B0", "markets": [0], "client": 1, "max_order_exposure": rng.choice([1000, 5.0]), "max_selection_exposure": rng.choice([10000, 12.0])}],
+        "tape": [rng.randrange(1_000_000) for _ in range(rng.choice([60, 120]))],
+        "max_steps": 600,
+        "faults": faults,
+        "exchange_events": [{"type": "fill", "bet": rng.randrange(5), "size": rng.choice([0.5, 2.0, 50.0])} for _ in range(rng.choice([0, 1, 3]))],
+        "controls": ([{"level": "trading", "mod": 2, "rem": rng.randrange(2), "kinds": rng.sample(["PLACE", "CANCEL", "UPDATE"], 2)}] if rng.random() < 0.4 else []),
+    }
